@@ -200,3 +200,40 @@ func verifC19_heldDuplicate41() {
 	l := r.dir.leaves["f"]
 	rt.Assert(l.opens[0] == 1 && l.outstanding(0) == 1, "the duplicated OPEN took effect exactly once")
 }
+
+// A client restarts while a request of its previous incarnation is still
+// held inside the file system: CREATE_SESSION of the new incarnation is
+// answered with NFS4ERR_DELAY and has not taken effect. Retransmitting it
+// (same sequence id) must therefore be treated as the request it is -- delayed
+// again or executed -- never answered with a reply no request ever produced,
+// and the following sequence id stays out of order until it has executed.
+func verifHarness_C19_CreateSessionDelayed41() {
+	rt.MustCover("csd:delayed", "csd:executed-after-release")
+	r := verifNewRig41("f")
+	r.login("client-a", 1)
+	r.dir.blockInOpen = make(chan struct{})
+	var held *nfsv4.Compound4res
+	rt.Go(func() { held = r.sequenceRaw(0, 1, verifOpenArgs(r, "o1", "f", virtual.ShareMaskRead)...) })
+	rt.Quiesce() // the old incarnation now has a request inside the file system
+	c, announced := r.exchangeID("client-a", 2)
+	_, _, sessionsBefore, _, _, _, _ := r.tables()
+	first := r.createSession(c, announced)
+	rt.Assert(first.GetCsrStatus() == nfsv4.NFS4ERR_DELAY, "the previous incarnation cannot be discarded while it has a request in flight")
+	rt.Cover("csd:delayed")
+	_, _, sessions, _, _, _, _ := r.tables()
+	rt.Assert(sessions == sessionsBefore, "a delayed CREATE_SESSION creates no session")
+	if rt.NondetBool("the next sequence id is tried first") {
+		skipped := r.createSession(c, announced+1)
+		rt.Assert(skipped.GetCsrStatus() == nfsv4.NFS4ERR_SEQ_MISORDERED, "the following sequence id is out of order while the announced one has not taken effect")
+	}
+	again := r.createSession(c, announced)
+	rt.Assert(again.GetCsrStatus() == nfsv4.NFS4ERR_DELAY, "the retransmitted CREATE_SESSION is delayed again while the request is still in flight")
+	close(r.dir.blockInOpen)
+	rt.WaitAll()
+	rt.Assert(held != nil, "the held request completes")
+	final, isOK := r.createSession(c, announced).(*nfsv4.CreateSession4res_NFS4_OK)
+	rt.Assert(isOK, "once the previous incarnation is idle the retransmitted CREATE_SESSION executes")
+	rt.Cover("csd:executed-after-release")
+	replay := r.createSession(c, announced)
+	rt.Assert(replay == nfsv4.CreateSession4res(final), "and from then on it is answered from the reply cache")
+}
